@@ -166,6 +166,35 @@ def real_load_path(schema, path, overrides=()):
     return ["ok"], cfg, handler
 
 
+def real_load_entry(schema, path, overrides=(), entry="abs", main_rel="main.conf"):
+    """the same resource named in one of the four ways of C18: absolute path, path relative to the current directory,
+    file: URL, open file object (opened by absolute or by relative path)"""
+    import urllib.request
+    if entry == "abs":
+        return real_load_path(schema, path, overrides)
+    root = path[: -len(main_rel)] if path.endswith(main_rel) else os.path.dirname(path)
+    cwd0 = os.getcwd()
+    try:
+        if entry in ("rel", "fileobj-rel"):
+            os.chdir(root or "/")
+            arg = os.path.relpath(path, root or "/")
+        else:
+            arg = path
+        try:
+            if entry == "url":
+                cfg, handler = ZConfig.loadConfig(schema, "file://" + urllib.request.pathname2url(path), overrides=list(overrides))
+            elif entry.startswith("fileobj"):
+                with open(arg, encoding="utf-8", newline="") as f:
+                    cfg, handler = ZConfig.loadConfigFile(schema, f, overrides=list(overrides))
+            else:
+                cfg, handler = ZConfig.loadConfig(schema, arg, overrides=list(overrides))
+        except Exception as e:
+            return classify_exc(e), None, None
+        return ["ok"], cfg, handler
+    finally:
+        os.chdir(cwd0)
+
+
 def subtypes_table(schema):
     out = []
     for n in schema.gettypenames():
